@@ -72,7 +72,8 @@ def replay_file(prop, modname, hname, cfg, v, idx):
     path = os.path.join(d, f"{hname.replace('.', '_')}-{idx}.json")
     with open(path, "w") as f:
         json.dump({"property": prop, "module": modname, "harness": hname, "cfg": cfg, "label": v["label"],
-                   "inputs": v["inputs"], "uf": v["uf"], "exception": v.get("exception")}, f, indent=1, sort_keys=True)
+                   "inputs": v["inputs"], "uf": v["uf"], "exception": v.get("exception"),
+                   "symbolic_label": v.get("symbolic_label")}, f, indent=1, sort_keys=True)
     return path
 
 
@@ -171,6 +172,12 @@ def main(argv=None):
             rr = run_concrete(fn, v["inputs"], v["uf"], cfg)
             replays += 1
             confirmed = v["label"] in rr["failed"]
+            if not confirmed and rr["failed"] and not rr["assume_failed"]:
+                # the solver's input makes a DIFFERENT assertion of this property fail on the real classes (typically when the
+                # symbolic run stopped at an exception of a proxy): that is a real violation at a concrete input - report it
+                # under the label that fails concretely
+                v = dict(v, label=rr["failed"][0], symbolic_label=v["label"])
+                confirmed = True
             k = match_known(known, prop, hname, cfg, v["label"])
             if not confirmed:
                 inconclusive.append(f"{jn}: counterexample for '{v['label']}' did not replay on the real classes "
